@@ -1,0 +1,182 @@
+//go:build verif
+
+package node
+
+// Hooks for the verification harness (/verif, property C19: cross-cluster log replay).
+// Built only with -tags verif. Nothing here re-implements node logic: a VerifSyncNode is a KVNode
+// made by the unchanged NewKVNode (real state machine, wait registry, remoteSyncedStateMgr, raftNode
+// object) whose raft loop is never started; the harness plays the part of the local raft log and calls
+// the real propose-rewrite, apply, snapshot and restore functions in the order the raft loop would.
+
+import (
+	"context"
+	"errors"
+	"sync"
+
+	"github.com/youzan/ZanRedisDB/engine"
+	"github.com/youzan/ZanRedisDB/raft"
+	"github.com/youzan/ZanRedisDB/raft/raftpb"
+	"github.com/youzan/ZanRedisDB/rockredis"
+	"github.com/youzan/ZanRedisDB/transport/rafthttp"
+)
+
+// verifCaptureNode stands in for raft.Node: a proposal is captured instead of being replicated.
+// Every other method of the embedded (nil) interface is never called on an un-started node.
+type verifCaptureNode struct {
+	raft.Node
+	mu       sync.Mutex
+	proposed [][]byte
+	failNext error
+}
+
+func (c *verifCaptureNode) ProposeWithDrop(ctx context.Context, data []byte, cancel context.CancelFunc) error {
+	c.mu.Lock()
+	defer c.mu.Unlock()
+	if c.failNext != nil {
+		err := c.failNext
+		c.failNext = nil
+		return err
+	}
+	d := make([]byte, len(data))
+	copy(d, data)
+	c.proposed = append(c.proposed, d)
+	return nil
+}
+
+// VerifSyncNode is an un-started KVNode plus the apply progress the apply loop would keep.
+type VerifSyncNode struct {
+	Node *KVNode
+	np   nodeProgress
+	cap  *verifCaptureNode
+}
+
+// VerifNewSyncNode builds the node with NewKVNode on dataDir (engine: "mem" | "pebble" | "rocksdb").
+func VerifNewSyncNode(dataDir string, engType string, ns string, replicaID uint64) (*VerifSyncNode, error) {
+	mc := &MachineConfig{
+		BroadcastAddr: "127.0.0.1",
+		DataRootDir:   dataDir,
+		TickMs:        100,
+		ElectionTick:  5,
+	}
+	mc.RocksDBOpts.EngineType = engType
+	kvOpts := &KVOptions{
+		DataDir:  dataDir,
+		EngType:  rockredis.EngType,
+		RockOpts: mc.RocksDBOpts,
+	}
+	engine.FillDefaultOptions(&kvOpts.RockOpts)
+	rc := &RaftConfig{
+		GroupID:    1000,
+		GroupName:  ns,
+		ID:         replicaID,
+		DataDir:    dataDir,
+		Replicator: 1,
+		nodeConfig: mc,
+	}
+	// an un-started transport object, as the repository's node tests pass (never dials: no peers are added)
+	tr := &rafthttp.Transport{ClusterID: "verif"}
+	nd, err := NewKVNode(kvOpts, rc, tr, false, func() {}, nil, nil)
+	if err != nil {
+		return nil, err
+	}
+	if err := nd.sm.Start(); err != nil {
+		return nil, err
+	}
+	c := &verifCaptureNode{}
+	nd.rn.node = c
+	return &VerifSyncNode{Node: nd, cap: c}, nil
+}
+
+// ProposeFromSyncer runs the real ProposeRawAsyncFromSyncer (rewrite of Type/ReqId/OrigTerm/OrigIndex,
+// timestamp check, wait registration) and returns the bytes it handed to raft.
+func (v *VerifSyncNode) ProposeFromSyncer(data []byte, term uint64, index uint64, raftTs int64) ([]byte, *FutureRsp, error) {
+	var reqList BatchInternalRaftRequest
+	if err := reqList.Unmarshal(data); err != nil {
+		return nil, nil, err
+	}
+	buf := make([]byte, len(data))
+	copy(buf, data)
+	fu, _, err := v.Node.ProposeRawAsyncFromSyncer(buf, &reqList, term, index, raftTs)
+	if err != nil {
+		return nil, nil, err
+	}
+	v.cap.mu.Lock()
+	defer v.cap.mu.Unlock()
+	if len(v.cap.proposed) == 0 {
+		return nil, nil, errors.New("nothing proposed")
+	}
+	p := v.cap.proposed[len(v.cap.proposed)-1]
+	v.cap.proposed = v.cap.proposed[:0]
+	return p, fu, nil
+}
+
+// FailNextPropose makes the next raft proposal fail with err (a dropped proposal).
+func (v *VerifSyncNode) FailNextPropose(err error) {
+	v.cap.mu.Lock()
+	v.cap.failNext = err
+	v.cap.mu.Unlock()
+}
+
+// SetReplayBoundary is what replayWAL does with the index of the last entry found in the WAL.
+func (v *VerifSyncNode) SetReplayBoundary(lastIndex uint64) {
+	v.Node.rn.lastIndex = lastIndex
+}
+
+// ApplyCommitted hands committed entries to the real applyEntries (one publishEntries batch).
+func (v *VerifSyncNode) ApplyCommitted(ents []raftpb.Entry) {
+	v.Node.applyEntries(&v.np, &applyInfo{ents: ents})
+}
+
+// AppliedIndex is the apply loop's progress.
+func (v *VerifSyncNode) AppliedIndex() (uint64, uint64) {
+	return v.np.appliedt, v.np.appliedi
+}
+
+// Snapshot does what maybeTriggerSnapshot/beginSnapshot do at the current applied position:
+// DataStorage.GetSnapshot then Snapshot.GetData.
+func (v *VerifSyncNode) Snapshot() (raftpb.Snapshot, error) {
+	var s raftpb.Snapshot
+	sn, err := v.Node.rn.ds.GetSnapshot(v.np.appliedt, v.np.appliedi)
+	if err != nil {
+		return s, err
+	}
+	data, err := sn.GetData()
+	if err != nil {
+		return s, err
+	}
+	s.Data = data
+	s.Metadata.Index = v.np.appliedi
+	s.Metadata.Term = v.np.appliedt
+	v.Node.rn.ds.UpdateSnapshotState(s.Metadata.Term, s.Metadata.Index)
+	v.np.snapi = v.np.appliedi
+	return s, nil
+}
+
+// RestoreAtStart does what startRaft does with the newest snapshot of an existing WAL
+// (nil: no snapshot, the data is cleaned) before the WAL tail is replayed.
+func (v *VerifSyncNode) RestoreAtStart(s *raftpb.Snapshot) error {
+	ds := v.Node.rn.ds
+	if s == nil || raft.IsEmptySnap(*s) {
+		v.np = nodeProgress{}
+		return ds.CleanData()
+	}
+	ds.UpdateSnapshotState(s.Metadata.Term, s.Metadata.Index)
+	if err := ds.PrepareSnapshot(*s); err != nil {
+		return err
+	}
+	if err := ds.RestoreFromSnapshot(*s); err != nil {
+		return err
+	}
+	v.np = nodeProgress{snapi: s.Metadata.Index, appliedt: s.Metadata.Term, appliedi: s.Metadata.Index}
+	return nil
+}
+
+// SyncedStates is the per-cluster synced position map (a copy).
+func (v *VerifSyncNode) SyncedStates() map[string]SyncedState {
+	return v.Node.remoteSyncedStates.Clone()
+}
+
+// Close closes the state machine (the store).
+func (v *VerifSyncNode) Close() {
+	v.Node.sm.Close()
+}
